@@ -33,9 +33,12 @@ def e3_plan(ctx):
     plan = []
     for kind in spaces.KINDS:
         if ctx.thorough:
-            for h in ("H1", "H2", "H3", "H4", "H6", "H7"):
+            for h in ("H1", "H2", "H3", "H6"):  # ~550-800 line points: b <= 2 is ~1.5e5-3e5 executions each
                 plan.append((h, kind, "line", 2, 48))
                 plan.append((h, kind, "opcode", 1, 4))
+            for h in ("H4", "H7"):  # ~2000 line points: b <= 2 would be ~2e6 executions per class; kept at b <= 1, both granularities
+                plan.append((h, kind, "line", 1, 2))
+                plan.append((h, kind, "opcode", 1, 12))
             plan.append(("H5", kind, "line", 1, 8))
         else:
             for h in ("H1", "H2", "H3", "H4", "H6", "H7"):
@@ -190,7 +193,7 @@ def main(ctx, t0):
     stats, acc = e2.explore(searches, 2, ctx, invs=INVS)
     stats3 = {}
     if ctx.thorough:
-        searches3 = [(k, c, "reduced") for k in spaces.KINDS for c in ("default", "limit")]
+        searches3 = [(k, "default", "reduced") for k in spaces.KINDS]
         stats3, acc3 = e2.explore(searches3, 3, ctx, chunk=32, invs=INVS)
         acc.merge(acc3)
     # keep only the invariants this property owns
